@@ -48,13 +48,8 @@ void FullHmmTransitionMatrix::setTransitionProbabilities(const Matrix<double>& m
   for (size_t i = 0; i < mat.getNumberOfRows(); ++i)
   {
     vSimplex_[i].setFrequencies(mat.row(i));
-    ParameterList pls = vSimplex_[i].getParameters();
-    for (size_t j = 0; j < pls.size(); ++j)
-    {
-      Parameter* p = pls[j].clone();
-      p->setName(TextTools::toString(i + 1) + "." + p->getName());
-      pl.addParameter(p);
-    }
+    // the parameters of the simplex already carry its namespace "<i+1>.", as in this object's own list
+    pl.addParameters(vSimplex_[i].getParameters());
   }
 
   matchParametersValues(pl);
